@@ -197,7 +197,7 @@ func newTarget(kind string, rng *rand.Rand) (concTarget, error) {
 		idx, err := comet.NewFlatIndex(dim, comet.L2Squared)
 		return &vecTarget{idx, kind, dim}, err
 	case "hnsw":
-		idx, err := comet.NewHNSWIndex(dim, comet.Euclidean, 4, 64, 64)
+		idx, err := comet.NewHNSWIndex(dim, comet.Euclidean, 4, 64, 40)
 		return &vecTarget{idx, kind, dim}, err
 	case "ivf":
 		idx, err := comet.NewIVFIndex(dim, 3, comet.Cosine)
